@@ -872,6 +872,10 @@ def units(tier: str, vseed: int) -> list:
         out.append({"kind": "grid", "i": i, "n": per_cfg, "vseed": vseed})
     for i in range(n_var_units):
         out.append({"kind": "var", "start": i * per_var, "count": per_var, "vseed": vseed})
+    nb = len(c06_calls.state_battery())
+    step = 60
+    for lo in range(0, nb * nb, step):
+        out.append({"kind": "bpair", "lo": lo, "hi": min(lo + step, nb * nb), "start": lo, "count": step, "vseed": vseed})
     # interleave so that a wall cap leaves both kinds covered
     out.sort(key=lambda u: (u.get("i", u.get("start", 0) // max(1, u.get("count", 1))) % 16, u["kind"]))
     return out
@@ -904,11 +908,26 @@ def var_case(vseed: int, j: int) -> dict:
             "calls": {str(i): POOL[i] for i in sorted(ids)}}
 
 
+def bpair_case(x: int) -> dict:
+    """The x-th ordered pair (a, b) of the state battery as a sequential variation: history [a], probe b, nothing else varied."""
+    bat = c06_calls.state_battery()
+    a, b = bat[x // len(bat)], bat[x % len(bat)]
+    if a["id"] == b["id"]:
+        a = dict(a, id=a["id"] + 5000)  # the very same call served twice
+    var = {"mode": "seq", "history": [a["id"]], "probes": [b["id"]], "cwd": "proj0", "epoch": E0, "jumps": [], "shuffle_dirs": False,
+           "nasty_history": False, "siblings": "none", "unibattery": None, "gc": "default", "tape": {"values": []}}
+    return {"prop": PROP, "seed": x, "kind": "var", "var": var, "calls": {str(a["id"]): a, str(b["id"]): b}, "battery_pair": x}
+
+
 def run_unit(unit: dict):
     stats = Stats()
     viols = []
     cases = []
-    if unit["kind"] == "grid":
+    if unit["kind"] == "bpair":
+        for x in range(unit["lo"], unit["hi"]):
+            cases.append(bpair_case(x))
+            stats.inc("battery_pairs")
+    elif unit["kind"] == "grid":
         cases.append(grid_case(unit["vseed"], unit["i"], unit["n"]))
     elif unit["kind"] == "det":
         for j in range(unit["lo"], unit["hi"]):
@@ -1081,6 +1100,9 @@ def main(tier: str, seed: int, args) -> int:
             "distinct_configurations": len(stats.sets.get("configs", ())),
             "config_values_used": {k[4:]: dict(v) for k, v in stats.groups.items() if k.startswith("cfg_")},
             "worker_encodings_seen": dict(stats.groups.get("worker_encoding", {})),
+            "state_battery_ordered_pairs": {"calls": len(c06_calls.state_battery()), "pairs_in_space": len(c06_calls.state_battery()) ** 2,
+                                            "pairs_run": c.get("battery_pairs", 0),
+                                            "complete": c.get("battery_pairs", 0) == len(c06_calls.state_battery()) ** 2},
             "variation_runs": c.get("var_runs", 0), "variation_evaluations": c.get("var_evaluations", 0),
             "variation_runs_with_2plus_dims": c.get("nontrivial_runs", 0), "variation_modes": dict(stats.groups.get("var_modes", {})),
             "variation_dims": dict(stats.groups.get("var_dims", {})), "distinct_variation_shapes": len(stats.sets.get("var_shapes", ())),
